@@ -239,12 +239,23 @@ async fn main() {
                 if samples.len() < 2 { samples.push(desc(json!({"what": what, "bad_follower": bad_follower, "sched": o.sched}))); }
             }
             "C17" => {
-                let kind = ["validate", "run", "consts"][r.below(3) as usize]; let consts2 = consts || kind == "consts"; let n2 = if consts2 { 2 } else { n }; let prog2 = if consts2 { P2C } else if n2 == 2 { P2 } else { P3 };
-                let leader2 = leader % n2; let outs2: Vec<bool> = outs.iter().take(n2).cloned().collect();
+                // corpus first: every RPC kind x both leaders x destinations absent/present (n = 2), deterministically; then seeded random scenarios
+                let fixed = case < 12;
+                let kind = if fixed { ["validate", "run", "consts"][case % 3] } else { ["validate", "run", "consts"][r.below(3) as usize] }; let consts2 = if fixed { kind == "consts" } else { consts || kind == "consts" }; let n2 = if consts2 || fixed { 2 } else { n }; let prog2 = if consts2 { P2C } else if n2 == 2 { P2 } else { P3 };
+                let leader2 = if fixed { (case / 3) % 2 } else { leader % n2 }; let outs2: Vec<bool> = if fixed { vec![case / 6 == 1; 2] } else { outs.iter().take(n2).cloned().collect() };
                 let o = scenario(n2, leader2, &outs2, consts2, &vec![prog2; n2], &vec![leader2; n2], 1, &mut r, Some((kind, 0)), |_, _| None).await; execs += 1; correspond(&mut m, &o, Some(kind), &mut disagreements, &mut steps);
                 *dist.entry(format!("fail:{kind}")).or_default() += 1; *dist.entry(format!("leader_has_dest:{}", outs2[leader2])).or_default() += 1; distinct.insert(format!("{:?}", (kind, n2, leader2, outs2.clone())));
                 let failed = o.log.iter().any(|l| l.starts_with("FAIL"));
-                if failed && o.permits[leader2] != 1 { failures.push(json!({"witness": if kind == "run" { "C17-a:run-failure-no-destination" } else if kind == "consts" { "C17-b:consts-failure-lingers" } else { "C17:other" }, "failure": format!("leader's permit not returned after a failed {kind} RPC: available {:?}, finished {:?}", o.permits, o.finished), "case": json!({"n": n2, "leader": leader2, "outputs": outs2, "log": o.log, "got": o.outputs})})); }
+                // the property speaks about the CALLER of the failed RPC: its policy ends (error notification if it has a destination; for validate the
+                // error reply of its own schedule call is the notification) and, if it is the leader, its permit is back. A peer that merely waits for the caller is not covered.
+                let caller = o.log.iter().find(|l| l.starts_with("FAIL")).and_then(|l| l.split_whitespace().nth(2)).and_then(|x| x.split("->").next()).and_then(|x| x.parse::<usize>().ok());
+                if let (true, Some(c)) = (failed, caller) {
+                    let mut bad = vec![];
+                    if !o.finished[c] { bad.push(format!("caller {c}'s policy did not end")); }
+                    if c == leader2 && o.permits[leader2] != 1 { bad.push("leader's permit not returned".to_string()); }
+                    if outs2[c] && kind != "validate" && !o.outputs.iter().any(|(p, s)| *p == c && s.starts_with("Err")) { bad.push(format!("caller {c} has a destination but got no error notification")); }
+                    if !bad.is_empty() { failures.push(json!({"witness": if kind == "run" { "C17-a:run-failure-no-destination" } else if kind == "consts" { "C17-b:consts-failure-lingers" } else { "C17:other" }, "failure": format!("after a failed {kind} RPC issued by party {c}: {}; available {:?}, finished {:?}", bad.join("; "), o.permits, o.finished), "case": json!({"n": n2, "leader": leader2, "outputs": outs2, "log": o.log, "got": o.outputs})})); }
+                }
                 if samples.len() < 2 { samples.push(json!({"n": n2, "leader": leader2, "fail": kind, "permits": o.permits, "outputs": o.outputs})); }
             }
             _ => { eprintln!("unknown property"); std::process::exit(2); }
